@@ -11,9 +11,10 @@ import Uquic.Proofs.QtpWire
 import Uquic.Proofs.QtpShuffle
 import Uquic.Proofs.QtpPopulate
 import Uquic.Proofs.QtpFrameKinds
+import Uquic.Proofs.QtpClone
 
 namespace Uquic.Props.C11
-open Uquic.Model.QTP Uquic.Model.FrameKinds Uquic.Spec.QtpMon Uquic.Proofs.Qtp Uquic.Gen.UQuic
+open Uquic.Model.QTP Uquic.Model.CloneSpec Uquic.Model.FrameKinds Uquic.Spec.QtpMon Uquic.Proofs.Qtp Uquic.Gen.UQuic
 
 /-! ## GREASE identifiers -/
 
@@ -202,6 +203,39 @@ theorem every_permutation_reachable {α : Type} (l q : List α) (h : q.Perm l) :
 
 example : shuffleWith [1, 0, 1] [10, 20, 30, 40] = [30, 40, 10, 20] := by decide
 example : validDraws 4 [1, 0, 1] := by unfold validDraws; decide
+
+/-! ## The per-dial copy of the ClientHelloSpec (`cloneClientHelloSpecForDial`)
+
+A dial works on a copy of the spec's extension list; which fields the fresh values copy is regenerated from
+the Go source (`Uquic.Gen.UQuic.cloneCases`), so these theorems are re-proved against the code as it is. -/
+
+/-- the copy preserves every spec-given field of every extension, in order; only per-connection state (the
+cached marshalling of the transport parameters) is dropped -/
+theorem clone_preserves_spec (es : List Ext) : (cloneSpec es).map specView = es.map specView := by
+  simp only [cloneSpec, List.map_map]
+  apply List.map_congr_left
+  intro e _
+  exact cloneExt_specView e
+
+/-- the copy never carries bytes cached by an earlier dial -/
+theorem clone_is_fresh (ps : List Param) (c : Option (List Nat)) : cloneExt (.qtp ps c) = .qtp ps none := by
+  have h := clone_copies_all.2.2.1
+  simp [cloneExt, h]
+
+/-- for every spec, tls.Config server name and fresh keys: the content each extension has in the ClientHello
+of a dial is what uTLS produces for the spec's value — a pinned server name stays, an empty one takes the
+Config's; the key-share groups and their order are the spec's; the transport parameters are marshalled anew
+(never an earlier dial's cached bytes); every other extension is the spec's value itself -/
+theorem dial_extensions_are_spec (cfgName : List Nat) (keyFor : Nat → List Nat) (es : List Ext) :
+    ((cloneSpec es).map (dialExt cfgName keyFor)).map wireContent = es.map (specContent cfgName) := by
+  simp only [cloneSpec, List.map_map]
+  apply List.map_congr_left
+  intro e _
+  exact wireContent_dial_clone cfgName keyFor e
+
+example : wireContent (dialExt [99] (fun _ => [1, 2, 3]) (cloneExt (.sni [102, 114]))) = .name [102, 114] := by decide
+example : wireContent (dialExt [99] (fun _ => [1, 2, 3]) (cloneExt (.sni []))) = .name [99] := by decide
+example : wireContent (dialExt [99] (fun _ => [1, 2, 3]) (cloneExt (.qtp [⟨1, [5], true⟩] (some [7, 7])))) = .bytes [1, 1, 5] := by decide
 
 /-! ## The frame-type set of the flight
 
